@@ -55,7 +55,27 @@ def plan(tier: str, seed: int) -> Dict[str, Any]:
     n = int(os.environ.get('VERIF_TASKS') or 0) or (1800 if tier == 'quick' else 40000)
     tasks = [{'i': i, 'seed': derive(seed, PROPERTY, i), 'limit': 720 if tier == 'thorough' else 120,
               'nsample': 24 if tier == 'thorough' else 10} for i in range(n)]
-    return {'tasks': tasks, 'budget_s': 75 if tier == 'quick' else 1500, 'task_timeout': 120, 'selfcheck': 6}
+    # real trees through the file-system seam: every test package alone, and seeded pairs (root order matters too)
+    rr = Rng(seed, 'c06-real-plan')
+    real = [{'i': n + j, 'seed': derive(seed, PROPERTY, 'real', j), 'trees': [t], 'nsched': 6 if tier == 'quick' else 40}
+            for j, t in enumerate(REAL_QUICK)]
+    for j in range(8 if tier == 'quick' else 60):
+        real.append({'i': n + len(real), 'seed': derive(seed, PROPERTY, 'pair', j), 'trees': rr.sub(j).sample(REAL_QUICK, 2),
+                     'nsched': 6 if tier == 'quick' else 24})
+    if tier == 'thorough':
+        for j, t in enumerate(REAL_THOROUGH):
+            real.append({'i': n + len(real), 'seed': derive(seed, PROPERTY, 'big', j), 'trees': [t], 'nsched': 12})
+    # interleave so that a budget cut does not drop them all
+    step = max(1, len(tasks) // max(1, len(real)))
+    merged: List[Dict[str, Any]] = []
+    ri = 0
+    for k, t in enumerate(tasks):
+        merged.append(t)
+        if k % step == 0 and ri < len(real):
+            merged.append(real[ri])
+            ri += 1
+    merged.extend(real[ri:])
+    return {'tasks': merged, 'budget_s': 100 if tier == 'quick' else 1500, 'task_timeout': 300, 'selfcheck': 6}
 
 
 # --------------------------------------------------------------------------
@@ -309,7 +329,157 @@ def run_world(world: Dict[str, Any], scheds: Sequence[Sequence[str]]) -> Dict[st
     }
 
 
+# --------------------------------------------------------------------------
+# real trees through the file-system seam (S1b)
+
+TESTPKG = '/repo/pydoctor/test/testpackages'
+REAL_QUICK = ['allgames', 'basic', 'codeininit', 'cyclic_imports', 'cyclic_imports_base_classes', 'importingfrompackage',
+              'interfaceallgames', 'interfaceclass', 'multipleinheritance', 'nestedconfusion', 'relativeimporttest',
+              'reparented_module', 'reparenting_crash', 'reparenting_crash_alt', 'reparenting_follows_aliases', 'report_trigger',
+              'modnamedafterbuiltin', 'package_module_name_clash', 'syntax_error']
+REAL_THOROUGH = ['/repo/pydoctor/templatewriter', '/repo/pydoctor/epydoc', '/repo/pydoctor/extensions',
+                 'site:attr', 'site:hyperlink', 'site:constantly', 'site:incremental', 'site:automat', 'site:lunr', 'site:requests',
+                 'site:cachecontrol', 'site:idna', 'site:packaging', 'site:urllib3']
+
+
+def _real_path(name: str) -> Optional[str]:
+    import os
+    if name.startswith('site:'):
+        import importlib.util
+        spec = importlib.util.find_spec(name[5:])
+        if spec is None or not spec.submodule_search_locations:
+            return None
+        return list(spec.submodule_search_locations)[0]
+    if name.startswith('/'):
+        return name if os.path.isdir(name) else None
+    return os.path.join(TESTPKG, name)
+
+
+def real_ident(obj: Any, root: str) -> str:
+    import os
+    sp = os.path.relpath(str(obj.source_path), root) if obj.source_path is not None else '?'
+    return f'{type(obj).__mro__[0].__name__[:1]}:{sp}:{int(obj.linenumber) if obj.linenumber else 0}:{obj.name.split(" ")[0]}'
+
+
+def run_real(task: Dict[str, Any]) -> Dict[str, Any]:
+    import os
+    import contextlib
+    import io
+    from pathlib import Path
+    rng = Rng(task['seed'], 'c06-real')
+    names = task['trees']
+    paths = [p for p in (_real_path(n) for n in names) if p]
+    if not paths:
+        return {'violations': [], 'digest': 'skipped', 'stats': {'runs': 0, 'interleavings': [], 'finals': 0, 'cyclic': False, 'partial': False,
+                                                                'moves': 0, 'partial_moves': 0, 'second_pass': 0, 'modules': 0, 'profile': 'real', 'exhaustive': False,
+                                                                'skipped_trees': names}}
+    root = os.path.commonpath([os.path.dirname(p) for p in paths])
+    # directories of the trees
+    dirs = []
+    for p in paths:
+        for dp, dn, fn in os.walk(p):
+            dn[:] = sorted(d for d in dn if d != '__pycache__')
+            dirs.append(dp)
+    nsched = task.get('nsched', 6)
+    dumps = []
+    inter: Set[str] = set()
+    partial_any = False
+    movers: Dict[str, Set[str]] = {}
+    h = hashlib.blake2b(digest_size=8)
+    scheds = []
+    for k in range(nsched):
+        r = rng.sub(k)
+        listing = {}
+        for d in dirs:
+            ents = sorted(e for e in os.listdir(d) if e != '__pycache__')
+            if k == 0:
+                pass                       # the shipped (sorted) order
+            elif k == 1:
+                ents = list(reversed(ents))
+            else:
+                ents = r.sub(d).shuffled(ents)
+            listing[d] = ents
+        order_paths = list(paths) if k == 0 else (list(reversed(paths)) if k == 1 else r.sub('roots').shuffled(paths))
+        system = simsystem.SimSystem(simsystem.make_options())
+        exc = None
+        buf = io.StringIO()
+        with simsystem.listing_order(listing), contextlib.redirect_stdout(buf):
+            try:
+                b = system.systemBuilder(system)
+                for pth in order_paths:
+                    b.addModule(Path(pth))
+                b.buildModules()
+            except Exception as e:
+                exc = e
+        iid = simsystem.interleaving_id(system.sim_log)
+        inter.add(iid)
+        partial_any |= any(e[0] == 'partial' for e in system.sim_log)
+        reg = [e[1] for e in system.sim_log if e[0] == 'enter' and e[2] == 0]
+        scheds.append(reg)
+        if exc is not None:
+            d = {'!crash': f'{type(exc).__name__}: {exc}'}
+        else:
+            d = {}
+            objs = {}
+            for name, o in system.allobjects.items():
+                objs[id(o)] = real_ident(o, root)
+            for name, o in system.allobjects.items():
+                i = objs[id(o)]
+                rec = {'kind': o.kind.name if o.kind else None, 'docstring': o.docstring, 'location': name}
+                if isinstance(o, simsystem.model.Class):
+                    rec['bases'] = [objs.get(id(x)) if x is not None else None for x in o.baseobjects]
+                    rec['mro'] = [objs.get(id(c)) for c in o.mro()]
+                if i in d:
+                    i = f'{i}@{name}'
+                d[i] = rec
+            for e in system.sim_log:
+                if e[0] == 'move':
+                    parts = e[1].split("'")
+                    movers.setdefault(parts[1].rsplit('.', 1)[-1], set()).add(parts[3])
+        dumps.append(d)
+        h.update(iid.encode())
+        h.update(hashlib.blake2b(json.dumps(d, sort_keys=True, default=str).encode(), digest_size=8).digest())
+    violations: Dict[str, Dict[str, Any]] = {}
+    ref = dumps[0]
+    tree_tag = '+'.join(os.path.basename(p) for p in paths)
+    for k, d in enumerate(dumps[1:], 1):
+        if '!crash' in ref or '!crash' in d:
+            if ref.get('!crash') != d.get('!crash'):
+                sig = f'{PROPERTY}/real/crash,tree={tree_tag}'
+                violations.setdefault(sig, {'signature': sig, 'detail': f'{ref.get("!crash")} vs {d.get("!crash")} (schedule {scheds[k]})',
+                                            'payload': {'real': task}})
+            continue
+        for i in sorted(set(ref) | set(d)):
+            a, b = ref.get(i), d.get(i)
+            attrs = []
+            if a is None or b is None:
+                if not partial_any:
+                    attrs.append('presence')
+            else:
+                for attr in ('bases', 'mro'):
+                    if a.get(attr) != b.get(attr):
+                        attrs.append(attr)
+                if not partial_any:
+                    for attr in ('kind', 'docstring'):
+                        if a.get(attr) != b.get(attr):
+                            attrs.append(attr)
+                    if a['location'] != b['location'] and len(movers.get(i.rsplit(':', 1)[-1], ())) <= 1:
+                        attrs.append('location')
+            for attr in attrs[:1]:
+                sig = f'{PROPERTY}/real/{attr},tree={tree_tag},object={i},cyclic={int(partial_any)}'
+                violations.setdefault(sig, {'signature': sig,
+                                            'detail': f'{attr} of {i}: {a and a.get(attr, a.get("location"))!r} under the shipped order but {b and b.get(attr, b.get("location"))!r} under registration order {scheds[k]}',
+                                            'payload': {'real': task}})
+    return {'violations': [violations[k] for k in sorted(violations)][:5], 'digest': h.hexdigest(),
+            'stats': {'runs': nsched, 'interleavings': sorted(inter), 'finals': len({json.dumps(x, sort_keys=True, default=str) for x in dumps}),
+                      'cyclic': partial_any, 'partial': partial_any, 'moves': sum(len(v) for v in movers.values()), 'partial_moves': 0,
+                      'second_pass': 0, 'modules': len(scheds[0]), 'profile': 'real', 'exhaustive': False, 'real_trees': names},
+            'sample': {'real_trees': names, 'registration_orders': scheds[:3]}}
+
+
 def run_task(task: Dict[str, Any]) -> Dict[str, Any]:
+    if task.get('trees'):
+        return run_real(task)
     rng = Rng(task['seed'], 'c06')
     pname, prof = pick_profile(rng.sub('profile'))
     world = W.gen_world(rng.sub('world'), prof)
@@ -324,11 +494,15 @@ def run_task(task: Dict[str, Any]) -> Dict[str, Any]:
 
 
 def replay(payload: Dict[str, Any]) -> Dict[str, Any]:
+    if 'real' in payload:
+        return run_real(payload['real'])
     return run_world(payload['world'], payload['schedules'])
 
 
 def minimise(v: Dict[str, Any]) -> Dict[str, Any]:
     from sim import minimise as M
+    if 'real' in v['payload']:
+        return v
     return M.minimise_world_violation(v, replay)
 
 
@@ -353,6 +527,9 @@ def coverage(stats: List[Dict[str, Any]], samples: List[Any]) -> Dict[str, Any]:
         'exhaustive_worlds': sum(1 for s in stats if s['exhaustive']),
         'cyclic_worlds': sum(1 for s in stats if s['cyclic']),
         'worlds_by_profile': profs,
+        'real_tree_tasks': sum(1 for s in stats if s.get('profile') == 'real'),
+        'real_trees': sorted({t for s in stats for t in s.get('real_trees', [])}),
+        'real_trees_skipped': sorted({t for s in stats for t in s.get('skipped_trees', [])}),
         'distinct_interleavings': len(inter),
         'worlds_with_more_than_one_final_state': sum(1 for s in stats if s['finals'] > 1),
         'probes': {
